@@ -415,7 +415,12 @@ def math_bodies(rng, n):
     out = ['x', 'a+b', '\\alpha', '\\frac{1}{2}', '{x}', '\\$', 'a\\$b', '(', ')', '[', ']',
            '[0,1)', '(0,1]', 'f(x', 'x]', '] [', '\\frac{a}{b} + [c', 'x \\in [0,1)',
            'A \\cup [0,1)', 'A\\cap(B', 'x \\notin ]a,b[', '\\infty)', '\\infty]',
-           'a & b \\\\ c', 'x_i^2', '\\hidden{q}', '% c\nx', '\\text{a $b$ c}', '\\mathbb{R}^n ']
+           'a & b \\\\ c', 'x_i^2', '\\hidden{q}', '% c\nx', '\\text{a $b$ c}', '\\mathbb{R}^n ',
+           # zero-argument operators inside a bare brace group (scripts): the
+           # group is read without the math mode, the operator must still not
+           # take the bracket as an argument
+           '\\bigcup_{t \\in [0,1)} A_t', 'y^{a \\cup[b} + 1', '{x \\in [0,1)}', '\\sum_{i \\notin ]a,b[} x_i',
+           '{\\infty]}', 'z_{\\cap(}']
     for s in SIZERS:
         for d in DELIMS:
             out.append('\\%s%s x' % (s, d))
